@@ -56,29 +56,17 @@ func newResolvedIdentity(m *Module, i *Identity) (string, *resolvedIdentity) {
 	return i.modulePrefixedName(), r
 }
 
-func appendIfNotIn(ids []*Identity, chk *Identity) []*Identity {
-	for _, id := range ids {
-		if id == chk {
-			return ids
-		}
-	}
-	return append(ids, chk)
-}
-
-// addChildren adds identity r and all of its children to ids
-// deterministically.
-func addChildren(r *Identity, ids []*Identity) []*Identity {
-	n := len(ids)
-	ids = appendIfNotIn(ids, r)
-	if len(ids) == n {
-		// Already visited; this also ends the recursion when the base
-		// statements form a cycle.
+// addChildren adds identity r and everything derived from it to ids, each
+// identity once (which also ends the walk when the base statements form a
+// cycle).  direct holds the identities directly derived from each identity.
+func addChildren(r *Identity, ids []*Identity, seen map[*Identity]bool, direct map[*Identity][]*Identity) []*Identity {
+	if seen[r] {
 		return ids
 	}
-
-	// Iterate through the values of r.
-	for _, ch := range r.Values {
-		ids = addChildren(ch, ids)
+	seen[r] = true
+	ids = append(ids, r)
+	for _, ch := range direct[r] {
+		ids = addChildren(ch, ids, seen, direct)
 	}
 	return ids
 }
@@ -188,6 +176,7 @@ func (ms *Modules) resolveIdentities() []error {
 	//
 	// We start by finding the direct children of all identities using the
 	// 'base' statement.
+	direct := map[*Identity][]*Identity{}
 	for _, i := range ms.typeDict.identities.dict {
 		if i.Identity.Base != nil {
 			// This identity inherits from one or more other identities.
@@ -201,18 +190,25 @@ func (ms *Modules) resolveIdentities() []error {
 					continue
 				}
 
-				// Build up a list of direct children of this identity.
-				base.Identity.Values = append(base.Identity.Values, i.Identity)
+				// Build up a list of direct children of this identity
+				// (afresh: Values holds the result of an earlier run).
+				direct[base.Identity] = append(direct[base.Identity], i.Identity)
 			}
 		}
 	}
 
 	// Now, we can find all transitive identities by recursively populating
 	// the children of each identity.
+	//
+	// The walk follows the lists of direct children, not the lists this
+	// loop has already replaced by their closure, and keeps a set of the
+	// identities met: a derivation chain of n identities costs n steps
+	// per identity.
 	for _, i := range ms.typeDict.identities.dict {
 		newValues := []*Identity{}
-		for _, j := range i.Identity.Values {
-			newValues = addChildren(j, newValues)
+		seen := map[*Identity]bool{}
+		for _, j := range direct[i.Identity] {
+			newValues = addChildren(j, newValues, seen, direct)
 		}
 		sort.SliceStable(newValues, func(j, k int) bool {
 			if newValues[j].Name != newValues[k].Name {
